@@ -414,6 +414,57 @@ def returned_collection(fn, pv, variant):
     return l, bb, idx
 
 
+DUMMY_OP = {"k": "const", "ty": "?", "val": None}
+
+
+def returned_operand(fn, pv, variant):
+    """(operand, bb, idx) of the payload of the single Ok(Value::<variant>(payload)) the function returns, or None"""
+    oks = [o for o in outcomes(fn, pv) if o["kind"] == "ok"]
+    if len(oks) != 1:
+        return None
+    o = oks[0]
+    st = fn.blocks[o["bb"]]["stmts"][o["idx"]]
+    d = find_def_stmt(pv, st["rv"]["ops"][0], o["bb"], o["idx"])
+    if not d or d[0] != "stmt" or d[1]["k"] != "aggr" or d[1].get("adt") != "ciborium::value::Value" or d[1].get("variant") != variant:
+        return None
+    return d[1]["ops"][0], d[2], d[3]
+
+
+def array_elements(fn, pv, op, bb, idx):
+    """elements of the array held by an operand, from its sequence value (lib/seq.py): a list of
+    {term, conds, loop, via, op, at, bb} in emission order - literal elements one by one, optional ones with the
+    conditions under which they are present, and a `loop` entry (with the per-element term over seq.X and the source
+    sequence) for each mapped part.  None if the sequence is not understood."""
+    from .seq import Seq, normalize
+    sq = Seq(fn, pv)
+    s = normalize(sq.of_operand(op, bb, idx))
+    out = []
+
+    def emit(part, conds):
+        k = part[0]
+        if k == "empty":
+            return True
+        if k == "lit":
+            for x in part[1]:
+                o, at = sq.origins.get(x, (DUMMY_OP, (bb, idx)))
+                out.append({"term": x, "conds": list(conds), "loop": None, "via": "push" if conds else "seq", "op": o, "at": at, "bb": at[0]})
+            return True
+        if k == "opt":
+            return emit(part[2], list(conds) + list(part[1]))
+        if k == "cat":
+            return all(emit(x, conds) for x in part[1])
+        if k == "map":
+            out.append({"term": part[1], "conds": list(conds), "loop": "seq", "seq": part[2], "via": "seq-map", "op": DUMMY_OP,
+                        "at": (bb, idx), "bb": bb})
+            return True
+        if k == "elems":
+            out.append({"term": ("x",), "conds": list(conds), "loop": "seq", "seq": part, "via": "seq-elems", "op": DUMMY_OP,
+                        "at": (bb, idx), "bb": bb})
+            return True
+        return False
+    return out if emit(s, []) else None
+
+
 def vec_elements(fn, pv, l, bb, idx):
     """ordered elements of the Vec in local l as built up to (bb, idx):
     list of {term, bb, conds, loop (header or None), via: 'init'|'push'}"""
@@ -457,7 +508,7 @@ def vec_elements(fn, pv, l, bb, idx):
         for op in st["rv"]["ops"]:
             elems.append({"op": op, "at": (init["bb"], init["idx"]), "bb": init["bb"], "via": "init",
                           "conds": [], "loop": None})
-    elif name == VEC_NEW:
+    elif name in (VEC_NEW, "alloc::vec::Vec::<T>::with_capacity"):
         pass
     else:
         return None
@@ -530,9 +581,18 @@ def apply_fn(prog, fterm, args):
         if f is None or not f.blocks:
             return None
         rt = Prov(f).return_term()
-        if any(isinstance(s, tuple) and s and s[0] in ("phi", "loop", "undef") for s in subterms(rt)):
+        if any(isinstance(s, tuple) and s and s[0] in ("loop", "undef") for s in subterms(rt)):
             return None
-        return subst_params(rt, [fterm] + list(args))
+        if rt[0] == "phi":
+            # a closure that matches on its argument: every alternative must say which variant it is for (it reads the
+            # variant's payload), so the value describes itself without path conditions
+            for alt in rt[1]:
+                if not any(isinstance(s, tuple) and s and s[0] == "variant" for s in subterms(alt)):
+                    return None
+        elif any(isinstance(s, tuple) and s and s[0] == "phi" for s in subterms(rt)):
+            return None
+        from .prov import resolve_closure_fields
+        return resolve_closure_fields(subst_params(rt, [fterm] + list(args)))
     return None
 
 
@@ -563,7 +623,13 @@ def emit_kind(prog, fn, pv, e):
     """descriptor of an emitted array element / map value: (kind, field)"""
     t = e["term"]
     f = field_of_self(t)
-    oc = option_combinator_cases(prog, t)
+    from . import combinators as cb
+    if cb.is_combinator(t):
+        # `o.map_or(d, f)` & co. are the match they abbreviate: the value is one of the case values
+        cases = cb.reduce(prog, t)
+        if not (len(cases) == 1 and cases[0][1] == t):
+            t = mk_phi([v for _, v in cases])
+    oc = option_combinator_cases(prog, e["term"])
     if oc and oc[0][0] == "field" and oc[0][1] == ("param", 0):
         fld = oc[0][2]
         if oc[2] == ("aggr", "ciborium::value::Value", "Bytes", (("0", ("field", ("variant", oc[0], "Some"), "0")),)) \
@@ -602,6 +668,27 @@ def emit_kind(prog, fn, pv, e):
     if is_call(t, "core::convert::From::from") and len(t[2]) == 1 and self_value(t[2][0]):
         site = fn.blocks[t[3][1]]["term"]["callee"]
         return "int<%s>" % site["args"][1], self_value(t[2][0])
+    # the same, seen only as a value: phi{ Bytes((self.f as Some).0), Null } - the arms describe themselves
+    if t[0] == "phi" and len(t[1]) == 2:
+        nulls = [x for x in t[1] if x == ("aggr", "ciborium::value::Value", "Null", ())]
+        byts = [x for x in t[1] if x[0] == "aggr" and x[1] == "ciborium::value::Value" and x[2] == "Bytes"]
+        if len(nulls) == 1 and len(byts) == 1:
+            inner = byts[0][3][0][1]
+            fld = self_value(inner)
+            if fld and inner[0] == "field" and inner[1][0] == "variant":
+                return "bstr/nil", fld
+    if t[0] == "phi" and len(t[1]) == 3 and f:
+        # nonce: Null | Bytes(((self.f as Some).0 as Bytes).0) | From::from(((self.f as Some).0 as Integer).0)
+        base = ("field", ("variant", ("field", ("param", 0), f), "Some"), "0")
+        want_n = ("aggr", "ciborium::value::Value", "Null", ())
+        want_b = ("aggr", "ciborium::value::Value", "Bytes", (("0", ("field", ("variant", base, "Bytes"), "0")),))
+        ints = [x for x in t[1] if is_call(x, "core::convert::From::from") and len(x[2]) == 1
+                and x[2][0] == ("field", ("variant", base, "Integer"), "0")]
+        from .prov import strip_sites
+        rest = {strip_sites(x) for x in t[1]}
+        if want_n in rest and want_b in rest and len(ints) == 1 and ints[0][3] and ints[0][3][0] in prog.fns:
+            site = prog.fns[ints[0][3][0]].blocks[ints[0][3][1]]["term"]["callee"]
+            return "bstr/int<%s>/nil" % site["args"][1], f
     # match on an Option field: Some(b) => Bytes(b), None => Null
     alist = arms(pv, e["op"], e["at"][0], e["at"][1])
     if len(alist) >= 2:
@@ -637,25 +724,48 @@ def emit_kind(prog, fn, pv, e):
     return "?", f
 
 
+FAIL_OR_CONTINUE = ("alloc::collections::btree::set::BTreeSet::<T, A>::insert", "alloc::collections::btree::set::BTreeSet::<T, A>::contains")
+
+
 def guard_desc(prog, fn, pv, e):
-    """omission guard of a pushed element: 'always' | 'nonempty:<field>' | 'some:<field>' | text"""
-    out = []
+    """omission guard of a pushed element, canonical (sorted, implied facts added): ['always'] or a list of
+    'nonempty:<field>' | 'empty:<field>' | 'some:<field>' | 'none:<field>' | 'len==k:<field>' | 'len!=k:<field>' | text.
+    Conditions that either fail the whole function or continue (a `?`, the duplicate-label test) are not omission guards."""
+    out = set()
     for c in e["conds"]:
         nb = normalize_bool_cond(c)
         if nb:
             t, val = nb
             if t[0] == "unop" and t[1] == "Not":
                 t, val = t[2], not val
+            if is_call(t) and t[1] in FAIL_OR_CONTINUE:
+                continue
             if is_call(t) and t[1].endswith("::is_empty"):
                 a = t[2][0]
                 fld = field_of_self(a)
-                out.append(("nonempty:%s" % fld) if val is False else ("empty:%s" % fld))
+                out.add(("nonempty:%s" % fld) if val is False else ("empty:%s" % fld))
+                continue
+            if is_call(t) and t[1] in ("core::option::Option::<T>::is_some", "core::option::Option::<T>::is_none"):
+                fld = field_of_self(t[2][0])
+                some = t[1].endswith("is_some") == val
+                out.add(("some:%s" if some else "none:%s") % fld)
                 continue
             if t[0] == "binop" and t[1] in ("Eq", "Ne") and is_call(t[2]) and t[2][1].endswith("::len") and t[3][0] == "const":
                 fld = field_of_self(t[2][2][0])
                 eq = (t[1] == "Eq") == val
-                out.append("len%s%d:%s" % ("==" if eq else "!=", t[3][1], fld))
+                out.add("len%s%d:%s" % ("==" if eq else "!=", t[3][1], fld))
                 continue
+        # `match v.len() { 0 => .., 1 => .., _ => .. }`
+        if is_call(c[0]) and c[0][1].endswith("::len") and c[1] in ("eq", "ne", "in"):
+            fld = field_of_self(c[0][2][0])
+            if c[1] == "eq":
+                out.add("len==%d:%s" % (c[2], fld))
+            elif c[1] == "ne":
+                for v in c[2]:
+                    out.add("len!=%d:%s" % (v, fld))
+            else:
+                out.add("len in %s:%s" % (sorted(c[2]), fld))
+            continue
         cv = cond_variants(prog, pv, c)
         if cv:
             subj, names = cv
@@ -663,15 +773,31 @@ def guard_desc(prog, fn, pv, e):
                 continue  # the success edge of a `?`
             fld = field_of_self(subj)
             if names == {"Some"}:
-                out.append("some:%s" % fld)
+                out.add("some:%s" % fld)
                 continue
             if names == {"None"}:
-                out.append("none:%s" % fld)
+                out.add("none:%s" % fld)
                 continue
-            out.append("variant(%s) in %s" % (show(subj)[:40], sorted(names)))
+            out.add("variant(%s) in %s" % (show(subj)[:40], sorted(names)))
             continue
-        out.append("cond(%s %s %s)" % (show(c[0])[:60], c[1], c[2]))
-    return out or ["always"]
+        out.add("cond(%s %s %s)" % (show(c[0])[:60], c[1], c[2]))
+    return canon_guard(out)
+
+
+def canon_guard(gs):
+    gs = set(gs) - {"always"}
+    for g in list(gs):
+        if g.startswith("len=="):
+            k, fld = g[5:].split(":", 1)
+            if k.isdigit() and int(k) >= 1:
+                gs.add("nonempty:%s" % fld)
+            if k == "0":
+                gs.discard(g)
+                gs.add("empty:%s" % fld)
+        if g.startswith("len!=0:"):
+            gs.discard(g)
+            gs.add("nonempty:%s" % g[7:])
+    return sorted(gs) or ["always"]
 
 
 def chase_ref_to_local(pv, op, bb, idx, depth=0):
@@ -709,9 +835,9 @@ def array_passed_to_writer(fn, pv):
     if not d or d[0] != "stmt" or d[1]["k"] != "aggr" or d[1].get("adt") != "ciborium::value::Value" or d[1].get("variant") != "Array":
         return None, "the serialised value is not a Value::Array literal"
     op = d[1]["ops"][0]
-    if op["k"] not in ("copy", "move") or op["place"]["p"]:
-        return None, "array payload is not a local"
-    els = vec_elements(fn, pv, op["place"]["l"], d[2], d[3])
+    els = array_elements(fn, pv, op, d[2], d[3])
+    if els is None and op["k"] in ("copy", "move") and not op["place"]["p"]:
+        els = vec_elements(fn, pv, op["place"]["l"], d[2], d[3])
     if els is None:
         return None, "cannot follow how the array is built"
     return (bb, els), None
